@@ -93,11 +93,20 @@ def run(ctx):
         viols, drifts, _ = V.leg_v(ctx, "ProxySessionTrace", "ProxySessionTrace.cfg", pf, label="V-hist%d" % k)
         handle(ctx, viols, pf, "history")
     ctx.cov["samples"].append([json.loads(x) for x in hl[:6]])
+    # Leg C: the same user's session used at two upstreams with different group rules at the same time
+    pairs_lines = 0
+    if ctx.id == "C01":
+        pairs = os.path.join(ctx.scratch, "pairs.ndjson")
+        pr = V.harness(ctx, ["ps-pairs", "-out", pairs, "-seed", ctx.seed, "-n", 300 if quick else 6000, "-workers", 8])
+        viols, drifts, _ = V.leg_v(ctx, "ProxySessionTrace", "ProxySessionTrace.cfg", pairs, label="V-pairs")
+        handle(ctx, viols, pairs, "concurrent-pair")
+        pairs_lines = pr["lines"]
+        ctx.cov["concurrent_pairs"] = pr["executed"]
     for smp in ctx.cov["samples"]:
         for rec in (smp if isinstance(smp, list) else [smp]):
             if isinstance(rec, dict) and "conc" in rec and rec["conc"]:
                 rec["conc"].pop("cookie", None)
-    ctx.cov["evaluations"] = total_exec + hs["lines"]
+    ctx.cov["evaluations"] = total_exec + hs["lines"] + pairs_lines
     ctx.cov["distinct_nontrivial"] = min(distinct, nontrivial) + hs["distinct"]
     ctx.cov["exhaustive"] = (not quick)
     ctx.cov["exhaustive_scope"] = ("every abstract one-step cell executed" if not quick else "TLC model exhaustive; implementation cells sampled (%d of %d)" % (s["distinct"], kept))
@@ -123,6 +132,13 @@ def replay(ctx, path):
         V.harness(ctx, ["ps-cells", "-in", one, "-out", obs, "-seed", rp["seed"], "-base", rec["case"], "-noshuffle", "-workers", 1])
         viols, _, _ = V.leg_v(ctx, "ProxySessionTrace", "ProxySessionTrace.cfg", obs)
         handle(ctx, viols, obs, "cell")
+    elif rp["kind"] == "concurrent-pair":
+        obs = os.path.join(ctx.scratch, "pairs.ndjson")
+        V.harness(ctx, ["ps-pairs", "-out", obs, "-seed", rp["seed"], "-n", 300 if rp["tier"] == "quick" else 6000, "-workers", 8])
+        viols, _, _ = V.leg_v(ctx, "ProxySessionTrace", "ProxySessionTrace.cfg", obs)
+        handle(ctx, viols, obs, "concurrent-pair")
+        print("note: a concurrent pair depends on the schedule; the whole leg was re-run with the same seed")
+        return V.finish(ctx, RULE_TEXT[ctx.id])
     else:
         h = rec["case"] // 100000
         nh, steps = (32, 200) if rp["tier"] == "quick" else (1500, 300)
